@@ -249,7 +249,8 @@ def serializer(ctx, C, tag, ir, fsm, reg, tick, unit, nunits, want_load, src, rd
            '%s must be a combinational 0/1 decision per state: %s' % (rdy, [q.fmt(a) for a in weird]))
     raises = [a for a in rd if not q.is_zero(a.rhs)]
     clears = [a for a in rd if q.is_zero(a.rhs)]
-    late_clear = [c for c in clears if any(c.order > r.order and (c.state is None or c.state == r.state) for r in raises)]
+    late_clear = [c for c in clears if any(c.order > r.order and (c.state is None or c.state == r.state) and
+                                            _consistent(norm(c), norm(r)) for r in raises)]
     ctx.ob('C49.ready-window', K(rdy.replace('self.', '') + '.no-late-clear'), not late_clear,
            late_clear[0].loc if late_clear else rd[0].loc,
            'a later assignment clears %s after it was raised (later wins): %s' % (rdy, [q.fmt(c) for c in late_clear]))
